@@ -174,7 +174,7 @@ def scenarios(tier):
     # the replacement connection's transport pushes back while the queue is being replayed, and the application keeps writing
     S.append(mk("replay-under-backpressure-dev", {0: [[("open", "p"), ("write", 0, b"r1"), ("write", 0, b"r2"), ("write", 0, b"r3"), ("write", 0, b"r4")]],
                                                   1: [[("listen", "p")]]},
-                lose=1, lose_both=True, chunking="whole", explored=("deliver", "app", "lose", "tresume"), bp=2,
+                lose=2, lose_both=True, chunking="whole", explored=("deliver", "app", "lose", "tresume"), bp=2, app_first=True,
                 post_init=bp_post_init, extra_events=bp_events, extra_apply=bp_apply,
                 extra_state=lambda w: (w.bp_left, [(getattr(c15.conn_transport(w, i), "told_paused", None)) for i in (0, 1)]),
                 dev_bound=3 if q else 4, max_depth=200))
